@@ -142,7 +142,7 @@ _MORE = {
     'C04': ' (f) the kern / ekern / bkern / bekern views after each of ten first calls of a new interpreter.',
     'C05': ' Two documents hold the same text under different categories in one document; (b) also re-uses the caller\'s own list / set after changing it in place between two calls; (d) filtered exports after each of ten first calls of a new interpreter.',
     'C06': ' Every layout carries local-comment rows; (d) spine selections after each of ten first calls of a new interpreter.',
-    'C07': ' Shapes with global comments inside the score; (b) checks that options do not leak from one call into the next (plain export after ranged / rejected ones, half-open ranges); (c) scores of 80 / 320 (thorough 1000) measures with unbounded symbolic from_measure / to_measure.',
+    'C07': ' Shapes with global comments inside the score; (b) checks that options do not leak from one call into the next (plain export after ranged / rejected ones, half-open ranges); (c) scores of 80 / 320 (thorough 1000) measures: ranges at the start, in the middle and at the end, out-of-range pairs around them (enumerated window; the unbounded symbolic range is decided by C07.a).',
     'C11': ' (h) two-step histories from the first call of a new interpreter (a selection naming the category, a result set the caller empties) followed by eight query kinds on the category, its parent and its children. E2 now also translates set methods (isdisjoint, issubset, union ...), any()/all() over sets and module-level constants.',
     'C12': ' The pools contain characters that only the lexer can reject (outside the kern alphabet; treated as malformed whatever the current parser says) and the same malformed text in several cells of one line.',
     'C13': ' (d) combined options after each of ten first calls of a new interpreter.',
